@@ -114,6 +114,14 @@ SCENARIOS = [
     ("2-byte text terminator cut mid-unit", "Struct('rec'/Struct('name'/CString('utf_16_le'), 'n'/Byte))", "parse", [0, 1, 2, 3, 4, 5], lambda n: _p("rec", "name"), (0,)),
     ("4-byte terminator cut mid-unit", "Struct('rec'/Struct('blob'/NullTerminated(GreedyBytes, term=b'\\r\\n\\r\\n'), 'n'/Byte))", "parse", [0, 1, 2, 3, 5, 6, 7], lambda n: _p("rec", "blob"), (13,)),
     ("4-byte text terminator", "Struct('rec'/Struct('name'/CString('utf_32_be'), 'n'/Byte))", "parse", [1, 2, 3, 5, 7], lambda n: _p("rec", "name"), (0,)),
+    ("prefix announces less than the payload needs", "Struct('rec'/Prefixed(Byte, Struct('head'/Byte, 'tail'/Struct('x'/Byte, 'y'/Int16ub))))", "parse", [3, 4], lambda n: _p("rec", "tail", "y"), (), "03"),
+    ("fixed region shorter than its payload", "Struct('rec'/FixedSized(2, Struct('a'/Byte, 'b'/Int16ub)), 't'/Byte)", "parse", [2, 3, 4], lambda n: _p("rec", "b"), ()),
+    ("sizeof: context-sized region without its key", "Struct('body'/Struct('blob'/FixedSized(this._._params.n, GreedyBytes)))", "sizeof", None, lambda n: " -> ".join(["(sizeof)", "body", "blob"]), ()),
+    ("sizeof: context-sized region, one level", "Struct('blob'/FixedSized(this._params.n, GreedyBytes), 't'/Byte)", "sizeof", None, lambda n: " -> ".join(["(sizeof)", "blob"]), ()),
+    ("sizeof: context-sized bytes and padding", "Struct('a'/Struct('p'/Padded(this._._params.n, Byte)), 'b'/Bytes(this._params.m))", "sizeof", None, lambda n: " -> ".join(["(sizeof)", "a", "p"]), ()),
+    ("build: float32 out of range", "Struct('m'/Struct('f'/Float32b, 'g'/Byte))", "build", dict(m=dict(f=1e39, g=1)), lambda n: _b("m", "f"), ()),
+    ("build: float16 out of range", "Struct('m'/Array(2, 'h'/Float16l))", "build", dict(m=[1.0, 70000.0]), lambda n: _b("m", "h"), ()),
+    ("build: integer out of range", "Struct('m'/Struct('i'/Int8ub))", "build", dict(m=dict(i=256)), lambda n: _b("m", "i"), ()),
     ("build: alternative swallowed by Select", "Struct('o'/Select('a'/Struct('x'/Int16ub), 'b'/Struct('y'/Int8ub)), 'tail'/Int16ub)", "build", dict(o=dict(y=1), tail=-1), lambda n: _b("tail"), ()),
     ("build: size of a self-counting VarInt prefix", "Struct('msg'/Struct('body'/Prefixed(VarInt, GreedyBytes, includelength=True)))", "build", dict(msg=dict(body=b"ab")), lambda n: _b("msg", "body"), ()),
     ("build: swallowed by Optional then failing", "Struct('opt'/Optional(Struct('x'/Int16ub)), 'tail'/Int16ub)", "build", dict(opt=dict(x=-1), tail=70000), lambda n: _b("tail"), ()),
@@ -121,8 +129,15 @@ SCENARIOS = [
 
 
 def _scenario(ctx, C, p):
-    name, source, op, arg, want, forbid = SCENARIOS[p["i"]]
+    sc = SCENARIOS[p["i"]]
+    name, source, op, arg, want, forbid = sc[:6]
+    prefix = bytes.fromhex(sc[6]) if len(sc) > 6 else b""
     d = mk(C, source)
+    if op == "sizeof":
+        r = api.outcome(d.sizeof)
+        ctx.check("sizeof without the key fails with SizeofError", (not r.ok) and isinstance(r.exc, C.SizeofError))
+        ctx.check("path %r (got %r)" % (want(0), getattr(r.exc, "path", None)), r.exc.path == want(0))
+        return "ok"
     if op == "build":
         r = api.outcome(d.build, arg)
         ctx.check("the build fails with a ConstructError", (not r.ok) and isinstance(r.exc, C.ConstructError))
@@ -133,7 +148,7 @@ def _scenario(ctx, C, p):
     for b in data:
         for f in forbid:
             ctx.assume(b != f)
-    r = api.outcome(d.parse, data)
+    r = api.outcome(d.parse, prefix + data if prefix else data)
     ctx.check("parsing %d bytes fails with a ConstructError" % n, (not r.ok) and isinstance(r.exc, C.ConstructError))
     ctx.check("%d bytes: path %r (got %r)" % (n, want(n), getattr(r.exc, "path", None)), r.exc.path == want(n))
     return "ok"
@@ -159,7 +174,7 @@ def instances(tier, seed):
     for i, s in enumerate(shapes[:40]):
         out.append(dict(name="sizeof #%d" % i, params=dict(kind="sizeof", shape=s)))
     for i, sc in enumerate(SCENARIOS):
-        if sc[2] == "build":
+        if sc[2] in ("build", "sizeof"):
             out.append(dict(name="scenario %s" % sc[0], params=dict(kind="scenario", i=i, shape=None), expect=["ok"]))
         else:
             for n in sc[3]:
